@@ -1,14 +1,17 @@
 import JL.Generated.Fns
-import JL.Tie.to_primitive
-import JL.Tie.str_to_number
+import JL.Lemmas.TieAuto
+import JL.Tie.to_number
 /-! tie: `abstract_gt`, as translated from the crate's current source, is the model's function - for every input -/
 namespace JL.Tie
 open JL
 
+/- The four relational helpers may be written in terms of one another (`a > b` as `b < a`, …): their generated definitions are all
+unfolded (none is recursive; `?`: those that exist), the conversions they call are replaced by the model's through the callee ties, the model's
+conversions are unfolded down to `toPrimitiveNumber` / `strToNumber`, whose values are then case-split wherever they occur. -/
 theorem abstract_gt (a b : Json) : Gen.abstract_gt a b = JsOp.abstractGt a b := by
-  unfold Gen.abstract_gt JsOp.abstractGt
-  rw [to_primitive, to_primitive]
-  cases JsOp.toPrimitive a <;> cases JsOp.toPrimitive b <;> simp [str_to_number, rs, F64.gt]
-  all_goals (first | (rename_i s f; cases JsOp.strToNumber s <;> simp) | (rename_i f s; cases JsOp.strToNumber s <;> simp))
+  tie_close [Gen.abstract_gt, ?Gen.abstract_lt, ?Gen.abstract_lte, ?Gen.abstract_gte,
+      JsOp.abstractLt, JsOp.abstractGt, JsOp.abstractLte, JsOp.abstractGte, JsOp.toNumber, JsOp.toPrimitive,
+      to_number, to_primitive, to_primitive_number, to_string, str_to_number]
+    splitting JsOp.toPrimitiveNumber JsOp.strToNumber
 
 end JL.Tie
